@@ -91,6 +91,24 @@ Proof.
   - pose proof (Hpre j (or_introl eq_refl)) as Hj. destruct (suffix_of Q (skipn (length w - j) w)); [rewrite Hj|]; apply IH; intros k Hk; apply Hpre; right; exact Hk.
 Qed.
 
+(** read over the split points 1, 2, ... (suffix of one letter, of two, ...): the LONGEST learned base whose remainder is a
+    known suffix decides - a shorter learned base is only consulted when no longer one fits *)
+Lemma sel_longest_base (sels : list (str * str)) (w : str) (i : nat) (suf base : str) :
+  (1 <= i <= length w - 1)%nat ->
+  suffix_of Q (skipn (length w - i) w) = Some suf -> assocS (firstn (length w - i) w) sels = Some base ->
+  (forall j, (1 <= j < i)%nat -> suffix_of Q (skipn (length w - j) w) = None \/ assocS (firstn (length w - j) w) sels = None) ->
+  sel_by_suffix Q sels w (seq 1 (length w - 1)) = join base suf.
+Proof.
+  intros Hi Hs Hb Hsmaller.
+  assert (E : seq 1 (length w - 1) = seq 1 (i - 1) ++ i :: seq (S i) (length w - 1 - i)).
+  { replace (length w - 1)%nat with ((i - 1) + (1 + (length w - 1 - i)))%nat at 1 by lia.
+    rewrite seq_app. replace (1 + (i - 1))%nat with i by lia. reflexivity. }
+  apply (sel_by_suffix_first sels w _ i suf base); [auto | | exact Hs | exact Hb].
+  exists (seq 1 (i - 1)), (seq (S i) (length w - 1 - i)). split; [exact E|].
+  intros j Hj. apply in_seq in Hj. destruct (Hsmaller j ltac:(lia)) as [H|H]; [rewrite H; exact I|].
+  destruct (suffix_of Q (skipn (length w - j) w)); [exact H | exact I].
+Qed.
+
 Lemma suffix_learned_is_preselected (sels : list (str * str)) l (pre w tr sel : str) :
   assocS w sels = None -> (2 <= length w)%nat -> sel_by_suffix Q sels w (seq 1 (length w - 1)) = sel ->
   (exists x, In x l /\ rstr x = pre ++ sel ++ tr) ->
